@@ -225,6 +225,8 @@ class Fold:
             for f in e.get("fields", []):
                 out[f["name"]] = self.ev(f["e"] if f.get("e") is not None else {"k": "Path", "segs": [f["name"]]})
             return out
+        if k == "Closure":
+            return ("closure", e.get("inputs", e.get("params", [])), e["body"], self)
         if k == "Block":
             return self.block(e)
         if k == "If":
@@ -351,6 +353,8 @@ class Fold:
                 hasself = any("self" in p for p in fn["sig"]["inputs"])
                 return self.call_fn(fn, args[0] if hasself else None, args[1:] if hasself else args)
         if len(segs) == 1:
+            if last in self.env and isinstance(self.env[last], tuple) and self.env[last][:1] == ("closure",):
+                return self.apply_closure(self.env[last], args)
             if last in self.env and callable(self.env[last]):
                 return self.env[last](*args)
             fn = self.free_fn(last)
@@ -358,10 +362,33 @@ class Fold:
                 return self.call_fn(fn, None, args)
         raise Stop("call `%s`" % "::".join(segs))
 
+    def apply_closure(self, clo, args):
+        _tag, params, body, home = clo
+        home = home or self  # a closure read from the enclosing function: its captures are looked up at the call
+        sub = home.sub(home.env)
+        if len(params) != len(args):
+            raise Stop("closure arity")
+        for p_, a_ in zip(params, args):
+            sub.bind(p_, a_)
+        try:
+            return sub.ev(body)
+        except Ret as r_:
+            return r_.v
+
     def mcall(self, e):
         m = e["method"]
         recv = self.ev(e["recv"])
         args = [self.ev(a) for a in e["args"]]
+        if isinstance(recv, (list, tuple)) and m in ("all", "any") and len(args) == 1 and isinstance(args[0], tuple) and args[0][:1] == ("closure",):
+            vals = []
+            for x in recv:
+                v_ = self.apply_closure(args[0], [x])
+                if not isinstance(v_, bool):
+                    raise Stop("predicate of .%s() is not decided" % m)
+                vals.append(v_)
+            return all(vals) if m == "all" else any(vals)
+        if isinstance(recv, (list, tuple)) and m == "map" and len(args) == 1 and isinstance(args[0], tuple) and args[0][:1] == ("closure",):
+            return [self.apply_closure(args[0], [x]) for x in recv]
         if isinstance(recv, TV) or isinstance(recv, dict):
             if m == "into" and not args:
                 return recv
